@@ -300,6 +300,25 @@ static void worldScenario(const std::string &dir, const std::string &libName, bo
     forget(parser.get()); forget(importer.get());
 }
 
+// two library files in one resolution: several messages (1.x files) are logged before an error that is then removed
+static void worldScenario2(const std::string &dir, const std::string &libA, const std::string &libB, bool strict, bool swap)
+{
+    std::string imports;
+    imports += "  <import xmlns:xlink=\"http://www.w3.org/1999/xlink\" xlink:href=\"" + (swap ? libB : libA) + ".cellml\"><units name=\"u1\" units_ref=\"mm\"/></import>\n";
+    imports += "  <import xmlns:xlink=\"http://www.w3.org/1999/xlink\" xlink:href=\"" + (swap ? libA : libB) + ".cellml\"><component name=\"c1\" component_ref=\"comp\"/></import>\n";
+    imports += "  <import xmlns:xlink=\"http://www.w3.org/1999/xlink\" xlink:href=\"" + libB + ".cellml\"><component name=\"c2\" component_ref=\"other\"/></import>\n";
+    std::string text = "<?xml version=\"1.0\" encoding=\"UTF-8\"?>\n<model xmlns=\"http://www.cellml.org/cellml/2.0#\" name=\"main\">\n" + imports + "</model>\n";
+    auto parser = adopt(Parser::create(strict));
+    auto model = parser->parseModel(text);
+    observe(parser.get(), "world2 parseModel");
+    if (model == nullptr) return;
+    auto importer = adopt(Importer::create(strict));
+    bool resolved = importer->resolveImports(model, dir + "/");
+    observe(importer.get(), "world2 resolveImports");
+    explained(!resolved, importer.get(), "resolveImports", "world2:" + libA + "+" + libB);
+    forget(parser.get()); forget(importer.get());
+}
+
 static void worlds(const std::string &dir)
 {
     auto variants = libraryVariants();
@@ -322,6 +341,27 @@ static void worlds(const std::string &dir)
                 int st = 0;
                 waitpid(pid, &st, 0);
                 if (WIFSIGNALED(st)) printf("X crash world=%s strict=%d what=%d signal=%d\n", v.first.c_str(), strict, what, WTERMSIG(st));
+            }
+        }
+    }
+    const char *firsts[] = {"ok11", "ok10", "ok20"};
+    for (auto a : firsts) {
+        for (auto &b : variants) {
+            for (int k = 0; k < 4; ++k) {
+                ++index;
+                fflush(stdout);
+                pid_t pid = fork();
+                if (pid == 0) {
+                    alarm(60);
+                    gNext = 500000 + int(index) * 100;
+                    worldScenario2(dir, a, b.first, (k & 1) != 0, (k & 2) != 0);
+                    printf("Z issues_audited=%zu observations=%zu files=1\n", gIssuesAudited, gObs);
+                    fflush(stdout);
+                    _exit(0);
+                }
+                int st = 0;
+                waitpid(pid, &st, 0);
+                if (WIFSIGNALED(st)) printf("X crash world2=%s+%s k=%d signal=%d\n", a, b.first.c_str(), k, WTERMSIG(st));
             }
         }
     }
